@@ -16,7 +16,7 @@ claim("C03", "frozen table of admissible reasons + reachability, path-sensitive 
       "On all paths of convergeBalancer/SetBalancer/SetPools/Allocate: outside twelve enumerated reasons no clear/reset/allocation is reachable, recorded addresses are re-adopted before allocation, existing allocations are returned unchanged, re-grouped pools re-home, no status write without a difference; restart gate/order shared with C06; READOPT-FIRST (the first full pass re-adopts before it allocates) is a recorded known finding (D15). Not a proof of the frame condition over histories.",
       NOTE, "DESIGN.md section 5, C03")
 claim("C06", "CFG dominance (gate), field ownership, comparator analysis, sibling agreement of SyncState switches, path-sensitive typestate",
-      "Restart gate, gate write, assigned-first order, Error->retry / ReprocessAll->reload in all five switches, failed status write -> SyncStateError without touching the allocator, clear-before-allocate, refused requests give their addresses back; decided on all paths. READOPT-FIRST (a re-adoption pass before the allocating pass) is a recorded known finding (D15). Not a proof of restart equivalence over crash points.",
+      "Restart gate, gate write, assigned-first order, Error->retry / ReprocessAll->reload in all five switches, failed status write -> SyncStateError without touching the allocator, clear-before-allocate, refused requests give their addresses back, the client's UpdateStatus reports every API refusal and the full pass lists the Services in one unrestricted call (WRITE-ERR); decided on all paths. READOPT-FIRST (a re-adoption pass before the allocating pass) is a recorded known finding (D15). Not a proof of restart equivalence over crash points.",
       NOTE, "DESIGN.md section 5, C06")
 claim("C07", "must-pass-through / branch-always path rules, loop-exit analysis, parameter-threading agreement across call sites",
       "Every release path requests and propagates a full re-sync; the free-address search has no early exit and uses the same keys as the final Assign; decided on all paths. Not a completeness proof against an admissibility oracle.",
@@ -49,7 +49,7 @@ claim("C11", "sibling set agreement (assign vs Unassign), loop must-pass rules, 
       "Bookkeeping symmetry per address on all paths (including a pool that no longer exists), zero-delete, refresh-after-mutation, saturation and non-negativity of the capacity counters, name-for-name status copy with write errors returned. Not decided: the /24 arithmetic arm of poolCount, equality with a rebuilt allocator as values.",
       NOTE, "DESIGN.md section 5, C11")
 claim("C20", "must-hold lockset dataflow with caller-holds fixed point and LIFO defer modelling, who-may-call / method-value escape analysis, alias-of-guarded-storage check",
-      "Mutual exclusion premises decided on all paths: handlers only run under the Listener mutex, every guarded field is accessed under its lock, callbacks and channel sends run outside the fine-grained locks, no mutable guarded storage is handed out, nothing waits for another goroutine under the announcer lock, and nothing outside internal/config stores into the parsed configuration that the reconcilers compare lock-free (SHARED-CONFIG; D16 repaired in a88bb7b). Serial equivalence of results is a consequence, not checked on values; lock instances are not distinguished (no pointer analysis); what a local copy of a configuration struct still shares through maps and pointers is not tracked.",
+      "Mutual exclusion premises decided on all paths: handlers only run under the Listener mutex, every guarded field is accessed under its lock, callbacks and channel sends run outside the fine-grained locks, no mutable guarded storage is handed out, nothing waits for another goroutine under the announcer lock, the status reconcilers never write through what a fetcher handed out (FETCHED-READONLY), and nothing outside internal/config stores into the parsed configuration that the reconcilers compare lock-free - directly, or through a pointer / map / slice field of a copy or of the session parameters built from it (SHARED-CONFIG; D16 repaired in a88bb7b). Serial equivalence of results is a consequence, not checked on values; lock instances are not distinguished (no pointer analysis); what a local copy of a configuration struct still shares is tracked one field deep (a store through a pointer, map or slice field of the copy), not further.",
       NOTE, "DESIGN.md section 5, C20")
 
 claim("C13", "CFG dominance of reply guards, loop-exhaustion analysis of the verdict, append-iff-increment pairing, lockset dataflow restricted to layer2",
@@ -60,16 +60,16 @@ claim("C17", "lockset dataflow, condition-variable wake-up rule, typestate of cl
       NOTE, "DESIGN.md section 5, C17")
 
 claim("C16", "writer/reader layout agreement from packed struct layouts, constant folding of the OPEN literal + RFC 4271 walk, attribute TLV size agreement, narrowing-conversion audit, bounded-decoder rule",
-      "Offsets patched into messages equal the layout of the struct written; OPEN option/capability lengths cover exactly their bytes; constant attribute headers match the size of the payload writes; every narrowing is checked; the OPEN decoder reads only through LimitedReaders bound to the announced lengths and cannot panic or spin. Decided for every input at once; the value-level round trip is not.",
+      "Offsets patched into messages equal the layout of the struct written; OPEN option/capability lengths cover exactly their bytes; constant attribute headers match the size of the payload writes; every narrowing is checked; the OPEN decoder reads only through LimitedReaders bound to the announced lengths and cannot panic or spin; the connection's reader is consumed by exact reads only, never through a buffering wrapper (NO-READAHEAD). Decided for every input at once; the value-level round trip is not.",
       NOTE, "DESIGN.md section 5, C16")
 
 claim("C14", "static type checker for text/template sources against go/types, template line-structure rules, map-order taint, field coverage, CFG dominance",
-      "The embedded FRR templates type-check against the Go data structs (the package's own tests need Docker and never run in the baseline), every data field is rendered, neighbour scoping / prefix-list naming / default-deny / on-match-next structure holds, the data handed to the templates is deterministic and complete, family-indexed sets follow the prefix family, Set validates and rolls back, merges are guarded. FRR's interpretation of the text is not decided.",
+      "The embedded FRR templates type-check against the Go data structs (the package's own tests need Docker and never run in the baseline), every data field is rendered, neighbour scoping / prefix-list naming / default-deny / on-match-next structure holds, the data handed to the templates is deterministic and complete, family-indexed sets follow the prefix family, every per-neighbour name includes address-or-interface and VRF (NAME-SCOPE), a neighbour entry reads nothing left over from the session visited before it, Set validates and rolls back, merges are guarded. FRR's interpretation of the text is not decided.",
       NOTE, "DESIGN.md section 5, C14")
 claim("C15", "field-sensitive map-order taint with comparator total-order obligations, loop must-pass rules, field coverage, sibling agreement between back ends, lockset dataflow",
       "The FRRConfiguration is a deterministic function of the session set (no map order escapes), allowed prefixes are the sorted de-duplicated prefixes of the neighbour's own session, associations are per session and sorted, password XOR secret, node targeting, parameter coverage, identical validation in all back ends, reconciler state under its lock. Equivalence with FRR mode as values is not decided.",
       NOTE, "DESIGN.md section 5, C15")
 
 claim("C19", "finite typestate / path rules over the debouncer goroutine's CFG, must-pass submit rules, call-graph reachability for lock freedom, error-return rules",
-      "The pending configuration is overwritten only by newer submissions, every non-ignored event arms the timer, failures re-arm and keep the flag, the applied value is the pending variable; every state change of the session manager is followed by generate-and-submit; the reload always writes and signals; nothing reachable from the debouncer takes the submitters' mutex; frr-k8s delivery stores before signalling and returns API errors. Liveness/timing is not decided.",
+      "The pending configuration is overwritten only by newer submissions, every non-ignored event arms the timer, failures re-arm and keep the flag, the applied value is the pending variable; every state change of the session manager is followed by generate-and-submit; the reload always writes the whole file (truncating) and signals, and stores nothing through the configuration object it is handed (ACTION-READONLY: the debouncer retries with that object); nothing reachable from the debouncer takes the submitters' mutex; frr-k8s delivery stores before signalling and returns API errors. Liveness/timing is not decided.",
       NOTE, "DESIGN.md section 5, C19")
